@@ -186,6 +186,10 @@ class Handlers(UserDict):
         handlers_cls = type(self)
         return handlers_cls(self.data)
 
+    # NOTE: UserDict.__copy__() clones the instance __dict__, which would make
+    #   the copy share the original's resolver (bound to the original's data).
+    __copy__ = copy
+
 
 def _best_match(media_type: str, all_media_types: Sequence[str]) -> Optional[str]:
     result = None
